@@ -5,7 +5,7 @@ tabular policies (stateful, out-of-bounds Box proposals, masks, time limits)
 vs Lerax.OnPolicy.collect, compared in Coq."""
 from __future__ import annotations
 
-from harness.common import Violation, run_main, setup_jax
+from harness.common import Violation, release_jit, run_main, setup_jax
 
 jax = setup_jax(x64=True)
 
@@ -65,6 +65,7 @@ def body(ck):
     for i in range(n):
         lit, j, meta = gen_rollout_case(ck, ck.rng, i)
         cases.append(lit); cj.append(j); metas.append(meta)
+        release_jit(i, 25)
     ck.current_case = None
     ck.log(f"{len(cases)} rollout cases")
     res = ck.run_coq_cases("C04Check", cases, shard=20, preamble=PREAMBLE)
